@@ -7,7 +7,7 @@ CRASH_RULE = ("one evaluation = one seeded simulated history (swarm-drawn schema
               "signature (op kinds + per-op outcome + sequence of I/O kinds); non-trivial = at least one crash image was "
               "recovered and compared with the model")
 PROPS = {
- "C01": dict(driver="crashsim", budget=dict(quick=75, thorough=1500), chunk=8, rule=CRASH_RULE,
+ "C01": dict(driver="crashsim+sqlsim", budget=dict(quick=75, thorough=1500), chunk=8, rule=CRASH_RULE + "; second driver (alternating chunks): sequential SQL histories with several clean and crash-style restarts at quiescent points (sessions that log nothing, restarts in a row, DDL, statistics), every table compared with the reference model after each crash restart",
              technique="deterministic simulation: recorded I/O trace, crash/torn-write fault injection at every prefix, reference-model oracle",
              assumptions=["crash model: ordered prefix of page and log writes, optionally with the final write torn (512-byte sectors / byte-granular log tail); loss or reordering of un-fsynced page writes is not modelled",
                           "crash points before the first start-up completed (bootstrap of an empty database) are not explored",
